@@ -244,6 +244,7 @@ class FakeBleClient:
         self.gate = None  # asyncio.Event the next read waits for (suspension point for cancellation sweeps)
         self.read_fault = None  # exception instance raised by the next read
         self.disconnect_fault = None  # exception instance raised by disconnect() (the link is gone, no callback)
+        self.notify_callbacks: dict = {}
         self.reads = 0
         self.writes = 0
         for iid, (svc, ctype, fmt, perms, value) in accessory.chars.items():
@@ -325,6 +326,8 @@ class FakeBleClient:
         return bytearray(self.endpoints[handle].on_read())
 
     async def start_notify(self, char, callback):
+        # GATT notifications enabled for this handle: the simulated accessory may now poke the controller (ble_notify)
+        self.notify_callbacks[getattr(char, "iid", char)] = callback
         return None
 
     async def clear_cache(self):
